@@ -67,7 +67,7 @@ def strategy(tier):
                    st.tuples(st.just("clear")), st.tuples(st.just("setcount"), st.integers(0, 60)))
     return st.fixed_dictionaries({
         # 1 case in 16: bit arrays beyond one page / beyond 64 KiB (only the first three operations are run then)
-        "est": st.integers(0, 15).flatmap(lambda z: st.sampled_from([600, 7000, 60000]) if z == 0 else
+        "est": st.integers(0, 15).flatmap(lambda z: st.sampled_from([600, 7000, 60000, 60000, 1000000]) if z == 0 else
                                           st.one_of(st.integers(1, 8), st.integers(1, 40))),
         "fpr": st.sampled_from([0.5, 0.3, 0.1, 0.05, 0.01, 0.001, 0.0001]),
         "hash": st.sampled_from(["default", "default", "md5", "salted"]),
